@@ -24,15 +24,22 @@ pub fn run(op: &str, args: &[&str]) -> Option<String> {
     match (op, args) {
         ("varint_dec", [h]) => {
             let b = unhex(h)?;
-            Some(match deserialize_partial::<VarInt>(&b) {
+            let r = deserialize_partial::<VarInt>(&b);
+            if !crate::ops_codec::readers_agree(&b, &r) {
+                return Some("READER-MISMATCH".to_string());
+            }
+            Some(match r {
                 Ok((v, n)) => format!("OK {} {}", v.0, n),
-                Err(_) => "ERR".to_string(),
+                Err(e) => crate::err_shown(&e),
             })
         }
         ("varint_enc", [n]) => {
             let n: u64 = n.parse().ok()?;
             let mut buf = Vec::new();
             let len = VarInt(n).consensus_encode(&mut buf).unwrap();
+            if !crate::ops_codec::writers_agree(&VarInt(n), &buf, len) || *VarInt(n) != n || format!("{}", VarInt(n)) != n.to_string() || format!("{:?}", VarInt(n)) != n.to_string() {
+                return Some("WRITER-MISMATCH".to_string());
+            }
             Some(format!("OK {} {}", show_hex(&buf), len))
         }
         ("varint_sweep", [h]) => {
@@ -61,7 +68,7 @@ pub fn run(op: &str, args: &[&str]) -> Option<String> {
             Some(match deserialize_partial::<VarInt>(&buf) {
                 Ok((v, k)) if k == buf.len() => format!("OK {}", v.0),
                 Ok((v, _)) => format!("OK {} leftover", v.0),
-                Err(_) => "ERR".to_string(),
+                Err(e) => crate::err_shown(&e),
             })
         }
         ("net_as", [n, t]) => {
@@ -78,7 +85,7 @@ pub fn run(op: &str, args: &[&str]) -> Option<String> {
             let b: u8 = b.parse().ok()?;
             Some(match Network::from_u8(b) {
                 Ok(n) => format!("OK {}", net_s(n)),
-                Err(_) => "ERR".to_string(),
+                Err(e) => crate::err_shown(&e),
             })
         }
         ("atype", [n, h]) => {
@@ -88,7 +95,7 @@ pub fn run(op: &str, args: &[&str]) -> Option<String> {
                 Ok(AddressType::Standard) => "OK std".to_string(),
                 Ok(AddressType::SubAddress) => "OK sub".to_string(),
                 Ok(AddressType::Integrated(p)) => format!("OK int:{}", show_hex(&p.0)),
-                Err(_) => "ERR".to_string(),
+                Err(e) => crate::err_shown(&e),
             })
         }
         _ => None,
